@@ -81,9 +81,9 @@ static size_t gval(int kind) {   /* 0 bytes, 1 C string, 2 all zero */
 
 /* ---- map model (keys by id) ----------------------------------------------------------- */
 #define NK 12
-static char KEYS[NK][12];
+static char KEYS[NK][40];       /* different lengths: a copy made with somebody else's length shows */
 static unsigned char *MV[NK]; static size_t MVL[NK]; static bool MP[NK];
-static void mm_reset(void) { for (int i = 0; i < NK; i++) { if (MP[i]) hm_free(MV[i]); MP[i] = false; MV[i] = NULL; snprintf(KEYS[i], sizeof KEYS[i], "key%02d", i * 7 % 31); } }
+static void mm_reset(void) { for (int i = 0; i < NK; i++) { if (MP[i]) hm_free(MV[i]); MP[i] = false; MV[i] = NULL; snprintf(KEYS[i], sizeof KEYS[i], "key%02d%.*s", i * 7 % 31, (i % 4) * 7, "-a-longer-key-name-tail-xyz"); } }
 static void mm_put(int id, const void *v, size_t n) { if (MP[id]) hm_free(MV[id]); MV[id] = vf_xdup(v, n); MVL[id] = n; MP[id] = true; }
 static void mm_del(int id) { if (MP[id]) { hm_free(MV[id]); MV[id] = NULL; MP[id] = false; } }
 static int mm_id(const void *name, size_t n) { for (int i = 0; i < NK; i++) if (strlen(KEYS[i]) + 1 == n && !memcmp(KEYS[i], name, n)) return i; return -1; }
@@ -197,9 +197,11 @@ static void run_hasharr(long caseno) {
             if (refused(d)) ; else if (d && ((char *)d >= (char *)mem && (char *)d < (char *)mem + ms)) bad("copy-aliases-internal", "qhasharr get returned a pointer into the table memory");
             else retain(str ? "qhasharr.getstr" : "qhasharr.get", d, sz, MV[id], MVL[id], NULL); } }
         else if (c < 90) { vf_log("walk"); qhasharr_obj_t o; int idx = 0, n = 0;
-            while (!abandon && T->getnext(T, &o, &idx)) { int k = mm_id(o.name, o.namesize);
+            while (!abandon && T->getnext(T, &o, &idx)) {
+                /* keys longer than the in-slot area come back as their stored 16-byte prefix (documented truncation); the test keys differ within their first 5 bytes */
+                int k = -1; for (int i = 0; i < NK; i++) { size_t full = strlen(KEYS[i]) + 1, want = full > 16 ? 16 : full; if (o.namesize == want && !memcmp(o.name, KEYS[i], want)) k = i; }
                 if (k < 0 || !MP[k]) { bad("walk-foreign", "walk returned a key that is not stored"); break; }
-                retain("qhasharr.getnext(name)", o.name, o.namesize, KEYS[k], strlen(KEYS[k]) + 1, NULL);
+                retain("qhasharr.getnext(name)", o.name, o.namesize, KEYS[k], o.namesize, NULL);
                 if (!abandon) retain("qhasharr.getnext(data)", o.data, o.datasize, MV[k], MVL[k], NULL);
                 if (++n > NK) break; } }
         else if (c < 92) { vf_log("clear"); T->clear(T); for (int i = 0; i < NK; i++) mm_del(i); mut = true; }
